@@ -29,6 +29,7 @@ const (
 	mStr
 	mDec
 	mDate
+	mPad // VARCHAR(600) holding a few hundred bytes: wide rows, many leaf chunks
 )
 
 // mCol is one column of a generated table.
@@ -57,6 +58,8 @@ func (c mCol) sqlType() string {
 		return "VARCHAR(16)"
 	case mDec:
 		return "DECIMAL(8,2)"
+	case mPad:
+		return "VARCHAR(600)"
 	default:
 		return "DATE"
 	}
@@ -87,6 +90,7 @@ var mDomains = map[mKind][]string{
 	mStr:  {"a", "b", "c", "", "A", "o'k", "zz"},
 	mDec:  {"0.00", "1.50", "-2.25", "999999.99"},
 	mDate: {"2020-01-01", "1999-12-31", "2024-02-29"},
+	mPad:  {strings.Repeat("p", 260), strings.Repeat("q", 260), strings.Repeat("r", 410), strings.Repeat("s", 120)},
 }
 
 const mWideStr = "abcdefghijklmnopqrstuvwxyz0123"
@@ -99,6 +103,11 @@ func mLit(v string, k mKind) string {
 	switch k {
 	case mInt, mBig, mDec:
 		return v
+	case mPad:
+		if len(v) > 20 && strings.Count(v, v[:1]) == len(v) && v[0] != '\'' {
+			return fmt.Sprintf("repeat('%s',%d)", v[:1], len(v))
+		}
+		return "'" + strings.ReplaceAll(v, "'", "''") + "'"
 	default:
 		return "'" + strings.ReplaceAll(v, "'", "''") + "'"
 	}
@@ -583,6 +592,53 @@ func (s *mSide) genQuietDelete(rt *rapid.T, label string, o mOpOpts) string {
 	delete(s.UpdCols, k)
 	p := mPred{kind: 0, key: strings.Split(k, "\x1f")}
 	return fmt.Sprintf("DELETE FROM {T} WHERE %s", p.sql(s))
+}
+
+// pointUpdate / pointDelete / pointInsert: explicit single-row statements (directed histories).
+func (s *mSide) pointUpdate(key string, col int, v string) string {
+	r, ok := s.T.Rows[key]
+	if !ok {
+		return ""
+	}
+	r[col] = v
+	s.Touched[key] = true
+	s.noteUpd(key, s.Cols[col].Name)
+	p := mPred{kind: 0, key: strings.Split(key, "\x1f")}
+	st := fmt.Sprintf("UPDATE {T} SET %s = %s WHERE %s", s.Cols[col].Name, mLit(v, s.Cols[col].Kind), p.sql(s))
+	s.Ops = append(s.Ops, st)
+	return st
+}
+
+func (s *mSide) pointDelete(key string) string {
+	if _, ok := s.T.Rows[key]; !ok {
+		return ""
+	}
+	s.T.Delete(key)
+	s.Touched[key] = true
+	delete(s.UpdCols, key)
+	p := mPred{kind: 0, key: strings.Split(key, "\x1f")}
+	st := fmt.Sprintf("DELETE FROM {T} WHERE %s", p.sql(s))
+	s.Ops = append(s.Ops, st)
+	return st
+}
+
+func (s *mSide) pointInsert(row vsql.Row) string {
+	if _, ok := s.T.Rows[s.T.Key(row)]; ok {
+		return ""
+	}
+	lits := make([]string, len(row))
+	for i, c := range s.Cols {
+		lits[i] = mLit(row[i], c.Kind)
+	}
+	s.T.Put(row)
+	k := s.T.Key(row)
+	s.Touched[k] = true
+	for _, c := range s.Cols[s.NPK:] {
+		s.noteUpd(k, c.Name)
+	}
+	st := fmt.Sprintf("INSERT INTO {T} (%s) VALUES (%s)", strings.Join(mNames(s.Cols), ","), strings.Join(lits, ","))
+	s.Ops = append(s.Ops, st)
+	return st
 }
 
 func (s *mSide) noteUpd(key, col string) {
